@@ -72,6 +72,15 @@ func main() {
 	case "-addelse":
 		rewrite(dir, addElse)
 		return
+	case "-fieldinit":
+		rewrite(dir, fieldInit)
+		return
+	case "-nestif":
+		rewrite(dir, nestIf)
+		return
+	case "-earlycontinue":
+		rewrite(dir, earlyContinue)
+		return
 	}
 	cfg := &packages.Config{Mode: packages.LoadSyntax, Dir: dir, Tests: false}
 	pkgs, err := packages.Load(cfg, "./...")
@@ -1050,5 +1059,140 @@ func addElse(p *packages.Package, f *ast.File, src []byte, off func(token.Pos) i
 			break
 		}
 	}
+	return es
+}
+
+// fieldInit: `x := T{A: a, B: b}` / `x := &T{…}` (keyed struct literal, statement of its own) ->
+// `x := T{}` followed by `x.A = a`, `x.B = b` in the same order.
+func fieldInit(p *packages.Package, f *ast.File, src []byte, off func(token.Pos) int) []tedit {
+	var es []tedit
+	text := func(n ast.Node) string { return string(src[off(n.Pos()):off(n.End())]) }
+	blocks(f, func(list []ast.Stmt) {
+		for _, st := range list {
+			as, ok := st.(*ast.AssignStmt)
+			if !ok || as.Tok != token.DEFINE || len(as.Lhs) != 1 || len(as.Rhs) != 1 {
+				continue
+			}
+			id, ok := as.Lhs[0].(*ast.Ident)
+			if !ok || id.Name == "_" {
+				continue
+			}
+			e := as.Rhs[0]
+			amp := ""
+			if u, ok := e.(*ast.UnaryExpr); ok && u.Op == token.AND {
+				e = u.X
+				amp = "&"
+			}
+			lit, ok := e.(*ast.CompositeLit)
+			if !ok || lit.Type == nil || len(lit.Elts) == 0 {
+				continue
+			}
+			t := p.TypesInfo.TypeOf(lit)
+			if t == nil {
+				continue
+			}
+			if _, isStruct := t.Underlying().(*types.Struct); !isStruct {
+				continue
+			}
+			var lines []string
+			keyed := true
+			for _, el := range lit.Elts {
+				kv, ok := el.(*ast.KeyValueExpr)
+				if !ok {
+					keyed = false
+					break
+				}
+				// the value must not mention x itself
+				mention := false
+				ast.Inspect(kv.Value, func(z ast.Node) bool {
+					if zi, ok := z.(*ast.Ident); ok && zi.Name == id.Name {
+						mention = true
+					}
+					return true
+				})
+				if mention {
+					keyed = false
+					break
+				}
+				lines = append(lines, id.Name+"."+text(kv.Key)+" = "+text(kv.Value))
+			}
+			if !keyed {
+				continue
+			}
+			es = append(es, tedit{off(as.Pos()), off(as.End()), id.Name + " := " + amp + text(lit.Type) + "{}\n" + strings.Join(lines, "\n")})
+		}
+	})
+	return es
+}
+
+// nestIf: `if a && b { X }` (no init, no else) -> `if a { if b { X } }`.
+func nestIf(p *packages.Package, f *ast.File, src []byte, off func(token.Pos) int) []tedit {
+	var es []tedit
+	text := func(n ast.Node) string { return string(src[off(n.Pos()):off(n.End())]) }
+	blocks(f, func(list []ast.Stmt) {
+		for _, st := range list {
+			ifs, ok := st.(*ast.IfStmt)
+			if !ok || ifs.Init != nil || ifs.Else != nil {
+				continue
+			}
+			be, ok := ifs.Cond.(*ast.BinaryExpr)
+			if !ok || be.Op != token.LAND {
+				continue
+			}
+			es = append(es, tedit{off(ifs.Pos()), off(ifs.Body.Lbrace), "if " + text(be.X) + " {\nif " + text(be.Y) + " "},
+				tedit{off(ifs.Body.Rbrace), off(ifs.Body.Rbrace) + 1, "}\n}"})
+		}
+	})
+	return es
+}
+
+// earlyContinue: a loop body whose last statement is `if c { A }` (no init, no else, A declares nothing that
+// clashes) -> `if !(c) { continue }` followed by A.
+func earlyContinue(p *packages.Package, f *ast.File, src []byte, off func(token.Pos) int) []tedit {
+	var es []tedit
+	text := func(n ast.Node) string { return string(src[off(n.Pos()):off(n.End())]) }
+	ast.Inspect(f, func(n ast.Node) bool {
+		var body *ast.BlockStmt
+		switch l := n.(type) {
+		case *ast.ForStmt:
+			body = l.Body
+		case *ast.RangeStmt:
+			body = l.Body
+		default:
+			return true
+		}
+		if len(body.List) == 0 {
+			return true
+		}
+		ifs, ok := body.List[len(body.List)-1].(*ast.IfStmt)
+		if !ok || ifs.Init != nil || ifs.Else != nil || len(ifs.Body.List) < 2 {
+			return true
+		}
+		declared := map[string]bool{}
+		for _, st := range body.List[:len(body.List)-1] {
+			if as, ok := st.(*ast.AssignStmt); ok && as.Tok == token.DEFINE {
+				for _, l := range as.Lhs {
+					if id, ok := l.(*ast.Ident); ok {
+						declared[id.Name] = true
+					}
+				}
+			}
+		}
+		for _, st := range ifs.Body.List {
+			if as, ok := st.(*ast.AssignStmt); ok && as.Tok == token.DEFINE {
+				for _, l := range as.Lhs {
+					if id, ok := l.(*ast.Ident); ok && declared[id.Name] {
+						return true
+					}
+				}
+			}
+			if _, ok := st.(*ast.DeclStmt); ok {
+				return true
+			}
+		}
+		inner := string(src[off(ifs.Body.Lbrace)+1 : off(ifs.Body.Rbrace)])
+		es = append(es, tedit{off(ifs.Pos()), off(ifs.End()), "if !(" + text(ifs.Cond) + ") {\ncontinue\n}\n" + inner})
+		return true
+	})
 	return es
 }
